@@ -98,3 +98,25 @@ def ctx_name(ctx, task):
         if t is task:
             return n
     return repr(task)
+
+
+def containment(ctx, program):
+    """C04's core monitor for any program: once a Scope/until block has been left, no record of any activity that was
+    spawned into it (or of their descendants) may follow"""
+    from .checks import scopetree as ST
+    msgs = []
+    try:
+        direct, owns, script_of, desc = ST.structure(program)
+    except Exception:       # noqa  (programs with shapes the static walk does not know)
+        return msgs
+    log = ctx.log
+    for name, act, pc, e_idx, l_idx in ST.scope_instances(ctx):
+        if l_idx is None:
+            continue
+        d = desc(name)
+        for i in range(l_idx + 1, len(log)):
+            r = log[i]
+            if r[1] in d and r[0] != 'inject':
+                msgs.append('%s of %s ran at %r after the block %s was left at %r' % (r[0], r[1], r[3], name, log[l_idx][3]))
+                break
+    return msgs
